@@ -8,6 +8,11 @@ pub fn dispatch(f: &[&str]) -> String {
     match f[0] {
         "binop" => gen_ops::binop(f[1], f[2], f[3], f[4], f[5]),
         "unop" => unop(f[1], f[2]),
+        "with_scale_round" => f_dec(&p_dec(f[1]).with_scale_round(f[2].parse().unwrap(), p_mode(f[3]))),
+        "with_scale" => f_dec(&p_dec(f[1]).with_scale(f[2].parse().unwrap())),
+        "round" => f_dec(&p_dec(f[1]).round(f[2].parse().unwrap())),
+        "round_pair" => p_mode(f[1]).round_pair(p_sign(f[2]), (f[3].parse().unwrap(), f[4].parse().unwrap()), f[5] == "true").to_string(),
+        "round_u32" => p_mode(f[1]).round_u32(std::num::NonZeroU8::new(f[3].parse().unwrap()).unwrap(), p_sign(f[2]), f[4].parse().unwrap(), f[5] == "true").to_string(),
         "to_prim" => to_prim(f[1], f[2], f[3]),
         "to_bigint" => match p_dec(f[1]).to_bigint() { Some(v) => v.to_string(), None => "None".to_string() },
         "is_integer" => p_dec(f[1]).is_integer().to_string(),
@@ -105,4 +110,25 @@ fn from_primitive(ty: &str, v: &str) -> String {
         _ => None,
     };
     f_opt_dec(&r)
+}
+
+pub fn p_mode(s: &str) -> RoundingMode {
+    match s {
+        "Up" => RoundingMode::Up,
+        "Down" => RoundingMode::Down,
+        "Ceiling" => RoundingMode::Ceiling,
+        "Floor" => RoundingMode::Floor,
+        "HalfUp" => RoundingMode::HalfUp,
+        "HalfDown" => RoundingMode::HalfDown,
+        "HalfEven" => RoundingMode::HalfEven,
+        _ => panic!("bad mode"),
+    }
+}
+
+pub fn p_sign(s: &str) -> num_bigint::Sign {
+    match s {
+        "Minus" => num_bigint::Sign::Minus,
+        "NoSign" => num_bigint::Sign::NoSign,
+        _ => num_bigint::Sign::Plus,
+    }
 }
